@@ -300,7 +300,7 @@ func nsWindowQuoted(offsets []int, b []byte, lo int) bool {
 //@ requires ns != nil && len(ns.offsets) > 0 && i >= 0 && i < 1<<61
 //@ modifies ns.offsets[len(ns.offsets)-1:len(ns.offsets)]
 //@ ensures last: ns.offsets[len(ns.offsets)-1] < 0 && ^ns.offsets[len(ns.offsets)-1] == i && ns.offsets[len(ns.offsets)-1] != invalidOffset
-//@ ensures below: vForall(0, len(ns.offsets)-1, func(i int) bool { return ns.offsets[i] == old(ns.offsets[i]) })
+//@ ensures below: vForall(0, len(ns.offsets)-1, func(k int) bool { return ns.offsets[k] == old(ns.offsets[k]) })
 
 // getUnquoted(i) is the i-th local name: the bytes between the previous end
 // offset and the i-th end offset. It panics ("BUG") only if the innermost entry
